@@ -23,7 +23,7 @@ var hugeViews = []uint64{1 << 63, ^uint64(0), 1 << 32}
 var classes = []string{
 	"honest-api", "honest-manual", "repeated-signer", "sub-quorum", "unknown-signer", "foreign-message",
 	"relabel-view", "relabel-hash", "swapped-ids", "empty-sig", "garbage-sig", "mixed-views", "extra-map-entry",
-	"valid-plus-invalid", "wrong-key", "free-form", "unsigned-map-entry", "labels-without-share",
+	"valid-plus-invalid", "wrong-key", "free-form", "unsigned-map-entry", "labels-without-share", "huge-view-entry",
 }
 
 func subset(rt *rapid.T, n, k int, label string) []int {
@@ -233,6 +233,20 @@ func genSpec(rt *rapid.T, maxN int, schemes []string) cs.Spec {
 				s.Map = s.Map[:keep]
 			}
 		}
+	case "huge-view-entry":
+		// an aggregate certificate in which one or two (Byzantine) signers attest a certificate that STATES an enormous view
+		// (it is not valid); the reported high QC must still be the highest valid one, on every evaluation
+		if s.Kind == "aggqc" && len(s.Entries) > 0 {
+			for i, m := 0, rapid.IntRange(1, 2).Draw(rt, "nhuge"); i < m; i++ {
+				k := pick("hi")
+				s.Entries[k].SQC = cs.PoolRelabelHuge
+				for j := range s.Map {
+					if s.Map[j].ID == s.Entries[k].SID {
+						s.Map[j].QC = cs.PoolRelabelHuge
+					}
+				}
+			}
+		}
 	case "unsigned-map-entry":
 		// a quorum of honest signers, plus map entries (attested QCs) for replicas that contributed no signature
 		if s.Kind == "aggqc" {
@@ -301,9 +315,14 @@ type verdict struct {
 	highQC   hotstuff.QuorumCert
 }
 
-func verifyOnce(w *cs.World, s cs.Spec, b cs.Built, verifier int) (vs [2]verdict) {
+func verifyOnce(w *cs.World, s cs.Spec, b cs.Built, verifier int) (vs []verdict) {
 	auth := w.Auth(verifier, s.Cache, false)
-	for round := 0; round < 2; round++ {
+	rounds := 2
+	if s.Kind == "aggqc" {
+		rounds = 8 // the verdict and the reported high QC of an aggregate certificate must not depend on map iteration order
+	}
+	vs = make([]verdict, rounds)
+	for round := 0; round < rounds; round++ {
 		func() {
 			defer func() {
 				if r := recover(); r != nil {
